@@ -475,6 +475,30 @@ theorem file_line_plain (name ts : Bytes) (strip : Int)
     simp only [hc, if_false, Bool.false_eq_true]
     rw [← List.cons_append, scanName_plain _ _ ht, finish_tab]
 
+/-- a bare word (no TAB, no blank, not quoted) with nothing after it: taken as it is, no time stamp -/
+theorem scanName_word (w : Bytes) (ht : TAB ∉ w) (hs : SP ∉ w) : scanName w = .ok (w, []) := by
+  have hall : w.takeWhile (fun x => x != TAB && x != SP) = w := by
+    apply takeWhile_eq_self_of_all
+    intro x hx
+    have h1 : x ≠ TAB := fun e => ht (e ▸ hx)
+    have h2 : x ≠ SP := fun e => hs (e ▸ hx)
+    simp [h1, h2]
+  unfold scanName
+  simp only [hall, ge_iff_le, Nat.le_refl, if_true]
+
+/-- `parse_file_line` on a bare word: the word, stripped like a path by `-p strip` — and left alone by a strip count of 0,
+    which is what the `Prereq: ` line passes -/
+theorem file_line_word (w : Bytes) (strip : Int) (hne : w ≠ []) (hq : w.head? ≠ some DQUOTE) (ht : TAB ∉ w) (hs : SP ∉ w) :
+    parseFileLine w strip = .ok (if w = devNull then w else stripPath w strip, none) := by
+  cases w with
+  | nil => exact absurd rfl hne
+  | cons c r =>
+    have hc : (c == DQUOTE) = false := by simpa using hq
+    rw [parseFileLine_cons]
+    simp only [hc, if_false, Bool.false_eq_true]
+    rw [scanName_word _ ht hs]
+    simp [finishFileLine]
+
 theorem file_line_quoted (name ts : Bytes) (strip : Int) :
     parseFileLine (cQuote name ++ TAB :: ts) strip =
       .ok (if name = devNull then name else stripPath name strip, some (TAB :: ts)) := by
